@@ -72,7 +72,7 @@ class CoveringMask(FragmentTask):
             return
         mask = out.value.get("mask")
         ok = isinstance(mask, NDArray) and mask.ndim == 3
-        ctx.oblige("post.mask-is-a-3d-array", ok, "P")
+        ctx.structure("post.mask-is-a-3d-array", ok)
         if not ok:
             return
         lo, hi, g, BA = inp["lo"], inp["hi"], inp["g"], inp["BA"]
@@ -153,7 +153,7 @@ class OccupancyMap(FragmentTask):
         g, n, W, LO, HI, A = self.g, inp["n"], inp["W"], inp["LO"], inp["HI"], inp["A"]
         ba = out.value.get("box_array")
         ok = isinstance(ba, NDArray) and ba.ndim == 3
-        ctx.oblige("post.map-is-a-3d-array", ok, "P")
+        ctx.structure("post.map-is-a-3d-array", ok)
         if not ok:
             return
         qq = [ctx.fresh(f"q{d}") for d in range(3)]
@@ -197,7 +197,7 @@ class MapResolution(FragmentTask):
             return
         g = out.value.get("box_rez")
         ok = g is not None and (is_z3(g) or isinstance(g, int))
-        ctx.oblige("post.fragment-defines-box_rez", ok, "P")
+        ctx.structure("post.fragment-defines-box_rez", ok)
         if not ok:
             return
         g = to_z3(g)
@@ -318,7 +318,7 @@ class IntegralOrchestration(Task):
         for k, ((lv, b), (kind, a)) in enumerate(zip(want, calls)):
             ok = isinstance(a, dict)
             tag = f"[level {lv}, box {b}]"
-            ctx.oblige(f"post.task-is-a-dict{tag}", ok, "P")
+            ctx.structure(f"post.task-is-a-dict{tag}", ok)
             if not ok:
                 continue
             ctx.oblige(f"post.masked-below-the-limit-only{tag}", kind == ("masked" if lv < L else "plain"), "P")
